@@ -28,3 +28,14 @@ pub fn fit_to_rect(
 
     tiny_skia::IntRect::from_ltrb(left, top, right, bottom)
 }
+
+/// Converts a rect into an integer one like `tiny_skia::Rect::to_int_rect`,
+/// but returns `None` instead of panicking when the result does not fit into `i32`.
+pub fn to_int_rect(r: tiny_skia::Rect) -> Option<tiny_skia::IntRect> {
+    tiny_skia::IntRect::from_xywh(
+        r.x().floor() as i32,
+        r.y().floor() as i32,
+        core::cmp::max(1, r.width().ceil() as u32),
+        core::cmp::max(1, r.height().ceil() as u32),
+    )
+}
